@@ -46,7 +46,8 @@ STATIC = re.compile(r"^(Calling non-function type|Attempting to index non-array 
                     r"Call with wrong number of arguments|Cannot iterate over|C '.*' is not iterable|'.*' is not iterable|"
                     r"Unpacking|Comparing|Invalid base for|unsupported operand|starred expression is not allowed here$|"
                     r"too many values to unpack|need more than \d+ values? to unpack|Can only create|"
-                    r"Cannot use .* as|Exception clause not allowed|Python type .* cannot be used|Type is not specialized)")
+                    r"Cannot use .* as|Exception clause not allowed|Python type .* cannot be used|Type is not specialized|"
+                    r".* operator not supported for type)")
 
 
 def error_class(msg):
@@ -69,7 +70,7 @@ def norm_msg(m):
 
 
 class Case(object):
-    __slots__ = ("id", "family", "data", "desc", "valid", "why_invalid", "typedop", "feats", "claims_valid", "cplus")
+    __slots__ = ("id", "family", "data", "desc", "valid", "why_invalid", "typedop", "feats", "tags", "claims_valid", "cplus")
 
     def __init__(self, family, data, desc, claims_valid=False):
         self.family, self.data, self.desc, self.claims_valid = family, data, desc, claims_valid
@@ -188,6 +189,8 @@ def lit_cases(tier, rng):
                 continue
             if f in ("bigint", "bigfloat") and not re.search(r"-(19|40|4300|4301|5000)$", name):
                 continue
+            if f == "constfold" and name.startswith("ret "):
+                continue
             keep.append((f, name, data))
         fam = keep
     out = []
@@ -280,19 +283,22 @@ def obs_detail(case, rec, why):
         return norm_msg(bad[0]) if bad else ""
     if why == "exception-escaped":
         tb = rec.get("escaped_tb", "")
-        m = re.findall(r'File ".*?/Cython/(\S+?)", line \d+, in (\w+)', tb)
-        return "%s in %s" % (rec["escaped"], ":".join(m[-1]) if m else "?")
+        m = re.findall(r'File ".*?/Cython/(?:\w+/)*(\w+\.py)", line \d+, in (\w+)', tb)
+        return "%s at %s" % (rec["escaped"], ":".join(m[-1]) if m else "?")
     if why in ("crash-reported", "internal-error", "internal-exception"):
         r = rec.get("raised") or {}
-        msg = r.get("msg", "")
-        if not msg:
-            cr = [e["msg"] for e in rec["errors"] if e["cls"] != "CompileError"]
-            msg = cr[0] if cr else ""
-        lines = [l for l in msg.strip().split("\n") if l.strip()]
-        last = lines[-1].strip() if lines else ""
-        exc = last.split(":")[0][:40] if last else r.get("type", "")
-        m = re.search(r"Compiler crash in (\w+)", msg)
-        return "%s in %s" % (exc, m.group(1) if m else r.get("phase", "?"))
+        cause = r.get("cause")
+        phase = r.get("phase", "?")
+        if not cause:
+            for e in rec["errors"]:
+                if e.get("cause"):
+                    cause = e["cause"]
+                    m = re.search(r"Compiler crash in (\w+)", e["msg"])
+                    phase = m.group(1) if m else phase
+                    break
+        if cause:
+            return "%s at %s in %s" % (cause["type"], cause["at"], phase)
+        return "%s in %s" % (r.get("type", "?"), phase)
     if why in ("unpositioned-error", "position-outside-source"):
         bad = [e for e in rec["errors"] if e.get("w") not in ("ok", "marker")]
         return norm_msg(bad[0]["msg"]) if bad else ""
@@ -307,17 +313,20 @@ def obs_detail(case, rec, why):
 def pick_cc(cases, recs, tier, rng):
     """generated C files to hand to the C compiler: a cover of the grammar alternatives + samples of the other families"""
     gen = [c for c in cases if c.id in recs and "died" not in recs[c.id] and recs[c.id]["final"]["cfile"] and recs[c.id].get("c_file")]
-    budget = 70 if tier == "quick" else 500
+    budget = 260 if tier == "quick" else 700
     chosen, covered = [], set()
     g = [c for c in gen if c.family == "gram"]
     g.sort(key=lambda c: c.data)
     rng.shuffle(g)
-    for c in g:
-        u = set(c.desc["used"].split("+"))
-        if not u <= covered and len(chosen) < budget * 2 // 3:
-            chosen.append(c)
-            covered |= u
-    rest = [c for c in gen if c not in set(chosen)]
+    # greedy cover of the grammar alternatives: sentences that bring two new alternatives first
+    for want in (2, 1):
+        for c in g:
+            u = set(c.desc["used"].split("+"))
+            if len(u - covered) >= want and len(chosen) < budget * 3 // 4:
+                chosen.append(c)
+                covered |= u
+    cs = set(chosen)
+    rest = [c for c in gen if c not in cs]
     rest.sort(key=lambda c: (c.family, c.data))
     for fam, k in (("lit", budget // 5), ("mut", budget // 12), ("corpus", 3 if tier == "quick" else 25), ("gram", budget // 12)):
         chosen.extend(core.sample([c for c in rest if c.family == fam], k, rng))
@@ -348,8 +357,9 @@ def run(tier, seed):
     # P: CPython's verdict (child process)
     V = T.cpython_verdicts([c.data for c in cases], os.path.join(wd, "p"))
     for c in cases:
-        c.valid, c.why_invalid, c.typedop, c.feats = V[c.id]
+        c.valid, c.why_invalid, c.typedop, c.feats, c.tags = V[c.id]
         c.desc["valid"] = bool(c.valid)
+        c.desc["tags"] = " ".join(c.tags)      # syntactic features of the text (lib_pytexts: ast_tags / text_tags)
         if c.family == "corpus":
             c.desc["feats"] = " ".join(c.feats)
         if c.claims_valid and not c.valid:
@@ -361,7 +371,7 @@ def run(tier, seed):
     # C: compile everything with the compiler under test
     items = [{"id": c.id, "b64": LP.b64(c.data), "kind": "py"} for c in cases]
     items.sort(key=lambda it: -len(it["b64"]))     # big texts first, spread over the shards
-    limit = 40 if tier == "quick" else 90
+    limit = 25 if tier == "quick" else 60          # CPU seconds per text
     recs = LP.compile_texts(items, os.path.join(wd, "cy"), jobs=jobs, per_text_timeout=limit, shard_timeout=6000)
     missing = [c.id for c in cases if c.id not in recs]
     if missing:
@@ -400,7 +410,7 @@ def run(tier, seed):
         for k, c in enumerate(sel):
             cpp = Case(c.family, c.data, dict(c.desc, cplus=True), c.claims_valid)
             cpp.id = len(cases) + k
-            cpp.valid, cpp.why_invalid, cpp.typedop, cpp.feats = c.valid, c.why_invalid, c.typedop, c.feats
+            cpp.valid, cpp.why_invalid, cpp.typedop, cpp.feats, cpp.tags = c.valid, c.why_invalid, c.typedop, c.feats, c.tags
             cpp.cplus = True
             cpp_cases.append(cpp)
         r2 = LP.compile_texts([{"id": c.id, "b64": LP.b64(c.data), "kind": "py", "cplus": True} for c in cpp_cases],
